@@ -1029,8 +1029,8 @@ func vfc35GenCase(t *testing.T, r *vfkit.Run, c int, rng *rand.Rand, dir string)
 		Hash:            string(vfkit.Pick(rng, []metadata.HashFunc{metadata.NoneFunc, metadata.NoneFunc, metadata.SHA256Func})),
 	}
 	nb := 1 + rng.Intn(5)
-	if !r.Thorough() && nb > 4 {
-		nb = 4
+	if !r.Thorough() && nb > 3 {
+		nb = 1 + rng.Intn(3)
 	}
 	base := int64(1_600_000_000_000)
 	emptyAt, corruptAt := -1, -1
@@ -1099,12 +1099,12 @@ func vfc35GenCase(t *testing.T, r *vfkit.Run, c int, rng *rand.Rand, dir string)
 func TestVF_C35(t *testing.T) {
 	r := vfkit.Start(t, "C35")
 	defer r.Finish()
-	r.Rule("case = a shipper directory with 1..5 real TSDB blocks (1..3 segment files; levels 1..3; possibly one block without samples and, with skip-corrupted, one directory without meta.json) x options (upload-compacted, allow-out-of-order, upload concurrency 0|1|4, hash func) x a history of 1..3 steps (blocks appear, external labels may change, Sync); " +
+	r.Rule("case = a shipper directory with 1..5 (quick tier: 1..3) real TSDB blocks (1..3 segment files; levels 1..3; possibly one block without samples and, with skip-corrupted, one directory without meta.json) x options (upload-compacted, allow-out-of-order, upload concurrency 0|1|4, hash func) x a history of 1..3 steps (blocks appear, external labels may change, Sync); " +
 		"the fault-free history is run first; then for EVERY step and EVERY bucket operation k of that step's Sync the history is replayed with a fault at k (crash = the Sync's goroutines are frozen inside op k and a new Shipper starts on the same directory and bucket; fail-stop lost|applied + restart; fail-once lost|applied, same Shipper - in quick only with allow-out-of-order, where Sync goes on after a failed block), followed by up to 3 Syncs and (quick: in a third of the replays; thorough: always) the rest of the history; replays of a later step start from the recorded durable state (directory, thanos.shipper.json, bucket) of the fault-free history; thorough adds a second crash inside the first restart Sync; " +
 		"oracle (own JSON reading of local meta.json, thanos.shipper.json and the in-memory bucket): after EVERY Sync and crash thanos.shipper.json lists only blocks whose meta.json is in the bucket with every listed file at its recorded size; after every Sync that returned nil each local block with samples and (level 1 or upload-compacted) has meta.json, every listed file, byte-identical index and chunk segments, and exactly the external labels the shipper had when that meta.json was uploaded; " +
 		"evaluation = one such check; distinct = (case, step, k, fault mode) where the fault was really injected and a later Sync returned nil with >= 1 eligible block verified")
-	n := r.N(10, 150)
-	r.Require(int64(n)*100, n*15)
+	n := r.N(8, 40)
+	r.Require(int64(n)*50, n*10)
 	r.Assume("'current external labels' = the labels the shipper had when it uploaded the block's meta.json (uploaded blocks are immutable; a later label change cannot and need not reach them)")
 	r.Assume("local blocks are Prometheus blocks without a thanos section; block time ranges do not overlap (otherwise the overlap check legitimately refuses compacted blocks)")
 	r.Assume("crash points are bucket operations; a crash between two local file-system steps of Sync with no bucket operation in between is represented by the nearest bucket operation only")
